@@ -56,6 +56,7 @@ pub fn deploy_with_tokens(cfg: &Cfg, bsei_init: &[(&str, u128)], stsei_init: &[(
     let ib = |l: &[(&str, u128)]| -> Vec<serde_json::Value> { l.iter().map(|(a, x)| json!({"address": a, "amount": x.to_string()})).collect() };
     let mut c = Chain::new(GENESIS, cfg.unbonding, &cfg.chain_validators);
     c.price = crate::actions::dec(cfg.price).atomics().u128();
+    c.hub_cfg = Some((cfg.epoch, cfg.unbonding, crate::actions::dec(cfg.peg_fee).atomics().u128(), crate::actions::dec(cfg.threshold).atomics().u128().min(1_000_000_000_000_000_000)));
     c.instantiate(
         Kind::Hub,
         HUB,
